@@ -134,7 +134,7 @@ func TestC14(t *testing.T) {
 			sel = append(sel, i)
 		}
 	}
-	runHistoryShards(t, run, "c14", len(cfgs), sel, depth, rep.Deadline(4*time.Minute, 60*time.Minute))
+	runHistoryShards(t, run, "c14", len(cfgs), sel, depth, rep.Deadline(4*time.Minute, 40*time.Minute))
 	run.Assume("values come from three fixed batches per pool key (duplicate keys, mixed key types, null and missing keys, non-record values for key this; and a wide object containing two disjoint narrower ones); long random histories are outside this technique")
 	run.Assume("the model adopts the implementation's partition of new values into objects after checking their union; it predicts sets of objects per commit and values per object set")
 	run.Assume("expected delete-where matches are computed by evaluating the predicate on each value in memory with the sequential runtime (no lake, no pruning)")
